@@ -75,7 +75,7 @@ class Contract(object):
         self.ensures_.append((name or "post%d" % len(self.ensures_), src))
         return self
 
-    def raises(self, exc, when=None, ensures=None, name=None, fields=None):
+    def raises(self, exc, when=None, ensures=None, name=None, fields=None, emits=None):
         """exc: exception class name (dotted or bare) or None for 'never raises'.
         when: condition over the pre-state under which it is raised.  A clause
         with `when` is exact (raised iff when); without it, the function *may*
@@ -86,6 +86,12 @@ class Contract(object):
             return self
         rn = name or "raises%d" % len(self.raises_)
         self.raises_.append((exc, when, ensures, rn))
+        if emits:
+            # events the callee is known (by its own trace obligations) to have produced when it
+            # raises this exception; replayed into the caller's trace at call sites
+            if not hasattr(self, 'raise_emits_'):
+                self.raise_emits_ = {}
+            self.raise_emits_[rn] = list(emits)
         if fields:
             if not hasattr(self, 'raise_fields_'):
                 self.raise_fields_ = {}
